@@ -14,7 +14,7 @@ PKGDIR = {'lucene': '.', 'lucene_test': '.', 'lex': 'internal/lex', 'lex_test': 
 
 
 def sh(cmd, cwd=None, timeout=1200):
-    return subprocess.run(cmd, shell=True, cwd=cwd, env=ENV, capture_output=True, text=True, timeout=timeout)
+    return subprocess.run(cmd, shell=True, cwd=cwd, env=ENV, capture_output=True, text=True, errors="replace", timeout=timeout)
 
 
 def reset():
@@ -33,12 +33,17 @@ def tests(cwd_rel=''):
 
 
 def main():
-    ids = sys.argv[1:] or ['C%02d' % i for i in range(1, 17)]
+    args = sys.argv[1:]
+    base, vmap = '/tmp/wt', {'a': 'a', 'b': 'b'}
+    if args and args[0] == '--round2':
+        base, vmap, args = '/tmp/wt2', {'a': 'c', 'b': 'd'}, args[1:]
+    ids = args or ['C%02d' % i for i in range(1, 17)]
     for pid in ids:
-        for v in ('a', 'b'):
-            src = '/tmp/wt/%s.out' % pid
-            patch = os.path.join(src, v + '.diff')
-            demo = os.path.join(src, 'demo_%s_%s_test.go' % (pid, v))
+        for v0 in ('a', 'b'):
+            v = vmap[v0]
+            src = '%s/%s.out' % (base, pid)
+            patch = os.path.join(src, v0 + '.diff')
+            demo = os.path.join(src, 'demo_%s_%s_test.go' % (pid, v0))
             if not (os.path.exists(patch) and os.path.exists(demo)):
                 print(pid, v, 'MISSING deliverable'); continue
             reset()
